@@ -1,7 +1,7 @@
 """C05 — rolling appender never loses, duplicates, reorders or splits records.
 case format / comparison: gen/rollcommon.py (shared with C06, C17)."""
 from gen import rollcommon as rc
-from gen.rollcommon import model_lines, compare, classify, describe, extra_coverage, run_impl  # noqa: F401
+from gen.rollcommon import model_lines, compare, classify, describe, extra_coverage  # noqa: F401
 
 RULE = ("random histories of up to 30 ops on the real RollingFileAppender: trigger in {SizeTrigger(limit around the "
         "record sizes, 0, 1024+-1), OnStartUpTrigger(min 0..6), scripted user Trigger pre-/post-processing whose i-th "
@@ -29,9 +29,104 @@ def corpus():
          [[0, [b"1"]], [3, 1700000045], [0, [b"2"]], [0, [b"3"]], [3, 1700000049], [0, [b"4"]],
           [3, 1700000050], [0, [b"5"]], [1, 1], [3, 1700000054], [0, [b"6"]], [3, 1700000055],
           [2, [[[b"A"]], [[b"B"]], [[b"C"]]]]]],
+        # index in a directory component and in the file name; three rotations
+        [[0, 3], [1, 0, 3, 0, 1, 0], [0], 1, [[0, [b"aaaa"]], [0, [b"bbbb"]], [0, [b"cccc"]], [0, [b"dd"]]]],
+        # hot restart: the old instance acknowledges two more records, then the new one writes
+        [[2, 0, []], [1, 0, 2, 0, 0, 0], [0], 1,
+         [[0, [b"r0;"]], [0, [b"r1;"]], [4, 1], [5, [b"r2;"]], [5, [b"r3;"]], [0, [b"r4;"]], [6], [0, [b"r5;"]]]],
+        # background rotation: two roll-overs back to back behind a slow (gzip of 64 KiB) first rotation
+        [[0, 0], [1, 0, 3, 1, 0, 1], [1, b"x" * 65536], 1,
+         [[2, [[[b"one"], [b"two"], [b"three"]]]], [0, [b"four"]]]],
         [[2, 0, [0, 0, rc.NEVER, 0, 0, 0]], [1, 7, 3, 1], [1, b"old"], 1,
          [[0, [b"r1"]], [0, [b"r", b"2"]], [0, [b"r3"]], [0, [b"r4"]], [0, [b"r5"]], [0, [b"r6"]]]],
     ]
+
+
+def prepare(ctx):
+    vc = ctx["vc"]
+    ctx["vh"] = vc.build_harness("c05")
+    ctx["vh_bg"] = vc.build_harness("c05", features="background_rotation")
+
+
+def run_impl(ctx, cases, lines):
+    """default build for the synchronous cases, the `background_rotation` build for the cases whose roller
+    carries the bg flag; results merged back in case order"""
+    idx_bg = [i for i, c in enumerate(cases) if rc.bg_of(c[1])]
+    idx_sync = [i for i, c in enumerate(cases) if not rc.bg_of(c[1])]
+    out = [None] * len(cases)
+    for idxs, key in ((idx_sync, "vh"), (idx_bg, "vh_bg")):
+        sub = dict(ctx, vh=ctx[key])
+        got = rc.run_impl(sub, [cases[i] for i in idxs], [lines[i] for i in idxs])
+        for i, g in zip(idxs, got):
+            out[i] = g
+    return out
+
+
+def hot_case(rng):
+    """overlapping appender instances on one path (a replacement is built while the old instance is still in
+    service, as a reconfiguration does); scripted user trigger whose decisions do not depend on the length
+    shown and which never fires while two instances are alive (a rotation under a second open handle is
+    outside the property: the other instance keeps writing to the archived file)"""
+    pre_t = rng.below(2)
+    roller = gen_roller(rng)
+    pre = [0] if rng.chance(1, 2) else [1, rc.rec_bytes(rng, "pre", rng.choice([0, 1, 4, 9]))]
+    ops, script, rid, overlap = [], [], 0, False
+
+    def app(kind):
+        nonlocal rid
+        sz = rng.choice([1, 2, 3, 5, 8, 12, rng.range(4, 10)])
+        ops.append([kind, rc.chunked(rng, rc.rec_bytes(rng, "%d" % rid, sz))])
+        rid += 1
+        script.append(rc.NEVER if overlap else rng.choice([0, rc.NEVER, rc.NEVER]))
+    for _ in range(rng.range(1, 4)):
+        app(0)
+    for _ in range(rng.range(1, 3)):
+        ops.append([4, 1])
+        overlap = True
+        for _ in range(rng.range(1, 5)):
+            app(rng.choice([0, 5, 5]))
+        ops.append([6] if rng.chance(3, 4) else [1, 1])
+        overlap = False
+        for _ in range(rng.range(1, 5)):
+            app(0)
+    return [[2, pre_t, script], roller, pre, 1, ops]
+
+
+def bg_case(rng):
+    """a history for the `background_rotation` build: window roller with count >= 1, rotations in quick
+    succession (triggers that fire at almost every append; bursts, also of ONE thread, issue several appends
+    back to back so that two roll-overs fall into the same wall-clock second while the previous background
+    rotation is still busy - made slow by a pre-existing file of 20-80 KiB that has to be gzipped)"""
+    slow = rng.chance(1, 3)
+    gz = 1 if slow else rng.below(2)
+    roller = [1, rng.choice([0, 1, 7]), rng.choice([1, 1, 2, 3, 4]), gz, rng.choice([0, 0, 1, 2]), 1]
+    k = rng.below(6)
+    if k < 3:
+        trig = [0, rng.choice([0, 1, 3, 8])]
+    elif k == 3:
+        trig = [1, rng.choice([0, 1, 4])]
+    else:
+        trig = [2, rng.below(2), [rng.choice([0, 0, 0, rc.NEVER]) for _ in range(60)]]
+    if slow:
+        pre = [1, rc.rec_bytes(rng, "pre", rng.choice([20000, 50000, 80000]))]
+    else:
+        pre = [0] if rng.chance(1, 2) else [1, rc.rec_bytes(rng, "pre", rng.choice([0, 3, 9]))]
+    ops, rid = [], 0
+    for _ in range(rng.range(2, 5) if slow else rng.range(2, 10)):
+        k = rng.below(10)
+        if k == 0:
+            ops.append([1, 1])
+        elif k < 4:
+            nthreads = rng.choice([1, 1, 2, 3])
+            threads = [[rc.chunked(rng, rc.rec_bytes(rng, "%d.%d.%d" % (rid, t, r), rng.range(4, 10)))
+                        for r in range(rng.range(2, 4) if nthreads == 1 else rng.range(1, 3))]
+                       for t in range(nthreads)]
+            rid += 1
+            ops.append([2, threads])
+        else:
+            ops.append(rc.op_append(rng, "%d" % rid, rng.choice([1, 2, 4, 6, 9, 12])))
+            rid += 1
+    return [trig, roller, pre, 1, ops]
 
 
 def gen_trigger(rng, big):
@@ -56,7 +151,7 @@ def gen_trigger(rng, big):
 def gen_roller(rng):
     if rng.chance(1, 5):
         return [0]
-    return [1, rng.choice([0, 1, 7]), rng.choice([0, 1, 1, 2, 2, 3, 4]), rng.below(2)]
+    return [1, rng.choice([0, 1, 7]), rng.choice([0, 1, 1, 2, 2, 3, 4]), rng.below(2), rng.choice([0, 0, 0, 1, 1, 2]), 0]
 
 
 def cases(rng, tier):
@@ -98,12 +193,17 @@ def cases(rng, tier):
                 ops.append(rc.op_append(rng, "%d" % rid, sz))
                 rid += 1
         out.append([trig, roller, pre, a0, ops])
+    for _ in range(150 if tier == "quick" else 2500):
+        out.append(hot_case(rng))
+    for _ in range(250 if tier == "quick" else 3000):
+        out.append(bg_case(rng))
     return out
 
 
 def nontrivial(c):
     trig, roller, pre, a0, ops = c
     nrec = sum(1 if o[0] == 0 else sum(len(t) for t in o[1]) if o[0] == 2 else 0 for o in ops)
+    nrec += sum(1 for o in ops if o[0] in (5, 7))
     can_fire = trig[0] in (0, 1) or (trig[0] == 3 and any(o[0] == 3 for o in ops)) or \
         (trig[0] == 2 and any(t < rc.NEVER for t in trig[2]))
     return nrec >= 2 and can_fire
